@@ -155,6 +155,14 @@ func probe() {
 	ask("u22", "a", "b")
 	ask("u30", "g", "h")
 	emit("cl", "upd", "c1", encPods(pods), "0")
+	emit("cl", "run", "c1") // the new component syncs, nothing has finalised the swap yet: pendingSwap.active hands out the new one
+	ask("u1", "a", "b")
+	ask("u30", "g", "h")
+	emit("cl", "upd", "c1", encPods(newPods), "0") // ... and it is the predecessor of the next update
+	ask("u1", "a", "b")
+	emit("cl", "sync", "c1")
+	ask("u30", "g", "h")
+	emit("cl", "upd", "c1", encPods(pods), "0")
 	emit("cl", "upd", "c1", encPods(newPods), "0")
 	ask("u30", "g", "h") // second rotation before the first synced: refused until it syncs
 	emit("cl", "sync", "c1")
@@ -216,6 +224,8 @@ func probe() {
 		r := base()
 		r.imp = "s:" + wire.Enc("spiffe://other.td/ns/a/sa/b")
 		emit(r.line()...)
+		r.imp = "s:" + wire.Enc("spiffe:///ns/a/sa/b") // an empty trust domain: the same class
+		emit(r.line()...)
 	}
 	// 1d. REAL authenticators inside Server.Authenticators, end to end through CreateCertificate
 	header("real-authenticators")
@@ -248,7 +258,7 @@ func probe() {
 	stale.podUID = "=old-uid"
 	reqa(kube(stale, "bearer"), "spiffe://cluster.local/ns/a/sa/b", "c1")
 	oidcSpec := func(sub, aud string) []string {
-		return []string{"oidc", "grpc", "cluster.local", "istio-ca", "bearer", "ok", wire.Enc(sub), "list", aud}
+		return []string{"oidc", "grpc", "cluster.local", "istio-ca", "bearer", "ok", wire.Enc(sub), "list", aud, "j"}
 	}
 	reqa(oidcSpec("system:serviceaccount:ns1:sa1", "istio-ca"), "", "-")
 	reqa(oidcSpec("system:serviceaccount:x", "istio-ca"), "", "-") // F5: an error since the fix, not a crash
@@ -341,7 +351,9 @@ func probe() {
 	header("ttl")
 	emit("ca", "plug", "3600", "3600", "1", "1800", "86400")
 	emit("na", "-")
-	for _, ttl := range []int64{-5, 0, 1, 1800, 3600, 3601, 3630, 3719, 5400, 86400, 86401, (1 << 55) + 600, -(1 << 55) + 600, 1 << 62, 9223372036, 9223372037, -(1 << 63)} {
+	// 20211507185753197 * 1e9 wraps to 512 ns: a positive lifetime below one second, the certificate ends when issued (observation)
+	for _, ttl := range []int64{-5, 0, 1, 1800, 3600, 3601, 3630, 3719, 5400, 86400, 86401, (1 << 55) + 600, -(1 << 55) + 600, 1 << 62, 9223372036, 9223372037, -(1 << 63),
+		20211507185753197, 40423014371506394} {
 		r := base()
 		r.ttl = ttl
 		emit(r.line()...)
@@ -371,10 +383,10 @@ func probe() {
 	emit(base().line()...)
 	// 4c. CAs built through the production constructors, an RSA intermediate, a signer that is not valid yet; CSRs from
 	// the real util.GenCSR; the signing certificate replaced under the live CA; istiod's own certificate (GenKeyCert)
-	for _, k := range []string{"plugfile", "selfk8s", "plugrsa", "future"} {
+	for _, k := range []string{"plugfile", "plugfilenotca", "selfk8s", "plugrsa", "future"} {
 		header("ca-" + k)
 		switch k {
-		case "plugfile":
+		case "plugfile", "plugfilenotca": // the latter: refused by NewPluggedCertIstioCAOptions, no CA
 			emit("ca", k, "7200", "7200", "1", "1800", "86400")
 		case "future":
 			emit("ca", k, "7200", "-", "1", "1800", "86400")
@@ -441,6 +453,9 @@ func probe() {
 	for i := 0; i < 64; i += 4 {
 		r := base()
 		r.csr.form = fmt.Sprint("flip", i)
+		if i%8 == 0 {
+			r.csr.key = "rsa-a"
+		}
 		emit(r.line()...)
 	}
 	for _, form := range []string{"multi", "multibad", "pss", "unkkey"} {
@@ -490,6 +505,14 @@ func probe() {
 		emit(r.line()...)
 	}
 	{
+		// a context without any incoming metadata: authenticated as usual, but no cluster is named for the gate
+		r := base()
+		r.noMD = true
+		emit(r.line()...)
+		r.imp = "s:" + wire.Enc("spiffe://cluster.local/ns/a/sa/b")
+		emit(r.line()...)
+	}
+	{
 		good := reviewSpec{authenticated: true, groups: []string{"system:serviceaccounts", "system:authenticated"},
 			username: "system:serviceaccount:istio-system:ztunnel", podName: "=zt", podUID: "=u1"}
 		kube := kubeSpecTokens("cluster.local", "c1", nil, "nil", "c1", "bearer", "node-proxy-token", []string{"istio-ca"}, good)
@@ -514,7 +537,7 @@ func probe() {
 		good := reviewSpec{authenticated: true, groups: []string{"system:serviceaccounts", "system:authenticated"},
 			username: "system:serviceaccount:istio-system:ztunnel", podName: "=zt", podUID: "=u1"}
 		kube := kubeSpecTokens("cluster.local", "c1", nil, "nil", "c1", "bearer", "node-proxy-token", []string{"istio-ca"}, good)
-		oidc := []string{"oidc", "grpc", "cluster.local", "istio-ca", "bearer", "ok", wire.Enc("system:serviceaccount:ns1:sa1"), "list", "istio-ca"}
+		oidc := []string{"oidc", "grpc", "cluster.local", "istio-ca", "bearer", "ok", wire.Enc("system:serviceaccount:ns1:sa1"), "list", "istio-ca", "d"}
 		both := func() {
 			for _, sp := range [][]string{kube, oidc} {
 				a := reqaSpec{spec: sp, req: reqSpec{csr: csrSpec{form: "ok", key: "ec256-a"}, ttl: 600, imp: "-", signer: "-", cluster: "c1"}}
@@ -529,11 +552,52 @@ func probe() {
 		emit("mesh", "cluster.local")
 		both()
 	}
+	// 4l. finding (fixed by cb98066): RunCA's out-of-cluster OIDC authenticator was constructed WITHOUT mesh watcher; a valid
+	// token made it dereference nil.  Alone, and as the last member of istiod's chain (client certificate, OIDC of JWT_RULE,
+	// Kubernetes JWT, XFCC, RunCA's OIDC) where every token-based authenticator reads the one authorization value
+	header("oidc-without-mesh-config-and-istiod-chain")
+	emit("ca", "plug", "86400", "86400", "1", "3600", "86400")
+	emit(na...)
+	{
+		good := reviewSpec{authenticated: true, groups: []string{"system:serviceaccounts", "system:authenticated"},
+			username: "system:serviceaccount:istio-system:ztunnel", podName: "=zt", podUID: "=u1"}
+		kube := kubeSpecTokens("cluster.local", "c1", nil, "nil", "c1", "bearer", "node-proxy-token", []string{"istio-ca"}, good)
+		oidc := func(td, expected, kind, aud, ctor string) []string {
+			return []string{"oidc", "grpc", td, expected, "bearer", kind, wire.Enc("system:serviceaccount:ns1:sa1"), "list", aud, ctor}
+		}
+		hx := "URI=spiffe://cluster.local/ns/b/sa/c"
+		xf := []string{"xfcc", "grpc", wire.Enc("10.0.0.0/8"), wire.Enc("10.1.2.3:555"), wire.EncList([]string{hx}), parsedXFCCAll([]string{hx})}
+		certNo := []string{"cert", "grpc", "tls", wire.EncList([]string{wire.Enc("nosan")})}
+		one := func(sp []string) {
+			a := reqaSpec{spec: sp, req: reqSpec{csr: csrSpec{form: "ok", key: "ec256-a"}, ttl: 600, imp: "-", signer: "-", cluster: "c1"}}
+			emit(a.line()...)
+		}
+		for _, ctor := range []string{"jn", "dn"} {
+			one(oidc("cluster.local", "istio-ca", "ok", "istio-ca", ctor))      // valid token: an error since the fix, a crash before
+			one(oidc("cluster.local", "istio-ca", "ok", "other", ctor))         // wrong audience
+			one(oidc("cluster.local", "istio-ca", "expired", "istio-ca", ctor)) // rejected by the verifier
+		}
+		chain := func(imp string, specs ...[]string) {
+			m := reqmSpec{specs: specs, req: reqSpec{csr: csrSpec{form: "ok", key: "ec256-a"}, ttl: 600, imp: "-", signer: "-", cluster: "c1"}}
+			if imp != "" {
+				m.req.imp = "s:" + wire.Enc(imp)
+			}
+			emit(m.line()...)
+		}
+		chain("", certNo, oidc("jwt-rule.td", "istio-ca", "ok", "istio-ca", "j"), kube, xf)                                                           // the Kubernetes token is the one presented: no JWT for OIDC, kube wins
+		chain("spiffe://cluster.local/ns/a/sa/b", certNo, oidc("jwt-rule.td", "istio-ca", "ok", "istio-ca", "j"), kube, xf)                           // ambient flow through the chain
+		chain("", certNo, oidc("jwt-rule.td", "istio-ca", "ok", "istio-ca", "j"), kube, xf, oidc("cluster.local", "istio-ca", "ok", "istio-ca", "d")) // one JWT, two OIDC authenticators accept it: the first one's trust domain
+		chain("", certNo, oidc("jwt-rule.td", "some-other-audience", "ok", "istio-ca", "j"), kube, xf, oidc("cluster.local", "istio-ca", "ok", "istio-ca", "d"))
+		chain("", certNo, oidc("jwt-rule.td", "some-other-audience", "ok", "istio-ca", "j"), kube, oidc("cluster.local", "istio-ca", "ok", "istio-ca", "dn")) // only the one without mesh config would accept: XFCC absent, nobody
+		chain("", certNo, kube, xf, oidc("cluster.local", "istio-ca", "ok", "istio-ca", "dn"))                                                                // ... XFCC still authenticates
+		chain("", certNo, kube, oidc("cluster.local", "istio-ca", "expired", "istio-ca", "d"))
+	}
 	// 4k. a federated trust domain: only the X.509-SVID entries of its SPIFFE bundle are trust roots
 	header("federated-trust-domain")
 	emit("ca", "plug", "86400", "86400", "1", "3600", "86400")
 	emit("na", "-")
-	for _, c := range [][2]string{{"td1=@x:R1;j:RX", "R1"}, {"td1=@x:R1;j:RX", "RX"}, {"td1=@j:RX", "RX"}, {"td1=@x:R1+RX", "R1"}, {"td1=@x:R1;x:R2", "R2"}} {
+	for _, c := range [][2]string{{"td1=@x:R1;j:RX", "R1"}, {"td1=@x:R1;j:RX", "RX"}, {"td1=@j:RX", "RX"}, {"td1=@x:R1+RX", "R1"}, {"td1=@x:R1;x:R2", "R2"},
+		{"td1=@!flaky;x:R1;j:RX", "R1"}, {"td1=@!flaky;x:R1;j:RX", "RX"}, {"td1=@!500", "R1"}, {"td1=@!badurl", "R1"}} {
 		a := reqaSpec{spec: []string{"tlscert", "grpc", wire.EncList([]string{c[0]}), leafSpec{issuer: c[1], sans: []string{"U:spiffe://td1/ns/a/sa/b"}, when: "ok", eku: "both"}.tok(), "-"},
 			req: reqSpec{csr: csrSpec{form: "ok", key: "ec256-a"}, ttl: 600, imp: "-", signer: "-", cluster: "-"}}
 		emit(a.line()...)
@@ -583,8 +647,9 @@ func probeAuthn() {
 	e := wire.Enc
 	// finding F5: verified OIDC token whose sub has fewer than four fields (fixed by 90fe2f5)
 	emit("case", "0", "authn", "oidc-short-sub")
+	ctor := "j"
 	oidc := func(tr, td, expected, form, kind, sub, audKind, aud string) {
-		emit("authn", "oidc", tr, td, expected, form, kind, sub, audKind, aud)
+		emit("authn", "oidc", tr, td, expected, form, kind, sub, audKind, aud, ctor)
 	}
 	for _, sub := range []string{"system:serviceaccount:x", "system:serviceaccount", "system:serviceaccount:", "system:serviceaccountx",
 		"system:serviceaccount:ns1:sa1", "system:serviceaccount:ns1:sa1:extra", "system:serviceaccountfoo:a:b", "bar:foo", ""} {
@@ -606,6 +671,26 @@ func probeAuthn() {
 	oidc("grpc", "cluster.local", "istio-ca", "bearer", "ok", "absent", "list", "istio-ca")
 	oidc("grpc", "cluster.local", "istio-ca", "none", "ok", "~", "list", "-")
 	oidc("grpc", e("td@corp"), "-", "bearer", "ok", e("system:serviceaccount:ns1:sa1"), "list", "istio-ca")
+	oidc("grpc", "cluster.local", "istio-ca", "nomd", "ok", e("system:serviceaccount:ns1:sa1"), "list", "istio-ca") // no incoming metadata at all
+	// the other branch of the constructor: OIDC discovery at the issuer (no jwks_uri) - the same verdicts on every token kind
+	ctor = "d"
+	for _, kind := range []string{"ok", "expired", "wrongiss", "otherkey", "garbage", "okfloat", "expiredfloat"} {
+		oidc("grpc", "cluster.local", "istio-ca", "bearer", kind, e("system:serviceaccount:ns1:sa1"), "list", "istio-ca")
+		oidc("http", "cluster.local", "istio-ca", "bearer", kind, e("system:serviceaccount:ns1:sa1"), "list", "istio-ca")
+	}
+	oidc("grpc", "cluster.local", "istio-ca", "bearer", "ok", e("system:serviceaccount:x"), "list", "istio-ca")
+	oidc("grpc", "cluster.local", "istio-ca", "bearer", "ok", e("system:serviceaccount:ns1:sa1"), "list", "x")
+	// finding (fixed by cb98066): constructed without mesh watcher (RunCA) - a valid token is an error, not a nil dereference
+	for _, c := range []string{"jn", "dn"} {
+		ctor = c
+		for _, tr := range []string{"grpc", "http"} {
+			oidc(tr, "cluster.local", "istio-ca", "bearer", "ok", e("system:serviceaccount:ns1:sa1"), "list", "istio-ca")
+		}
+		oidc("grpc", "cluster.local", "istio-ca", "bearer", "ok", e("system:serviceaccount:ns1:sa1"), "list", "x")
+		oidc("grpc", "cluster.local", "istio-ca", "bearer", "expired", e("system:serviceaccount:ns1:sa1"), "list", "istio-ca")
+		oidc("grpc", "cluster.local", "istio-ca", "bearer", "ok", e("system:serviceaccount:x"), "list", "istio-ca")
+	}
+	ctor = "j"
 	// XFCC: trusted / untrusted / loopback peers, both transports
 	emit("case", "1", "authn", "xfcc")
 	h := `URI=spiffe://cluster.local/ns/b/sa/c;DNS=foo.example.com;Subject="CN=bar,O=x"`
@@ -680,6 +765,10 @@ func probeAuthn() {
 		}
 	}
 	emit("authn", "tlscert", "grpc", wire.EncList([]string{"td1=@x:R1", "td2=@j:RX"}), lf("R1", "ok", "both", "U:spiffe://td1/ns/a/sa/b"), "-") // one refused bundle: no server
+	// the endpoint is out of order (500 until the retries are given up), is no URL, or recovers on the retry
+	for _, b := range []string{"@!500", "@!badurl", "@!flaky;x:R1;j:RX", "@!flaky;j:RX"} {
+		emit("authn", "tlscert", "grpc", wire.EncList([]string{"td1=" + b}), lf("R1", "ok", "both", "U:spiffe://td1/ns/a/sa/b"), "-")
+	}
 	emit("authn", "tlscert", "grpc", wire.EncList([]string{"td1=@x:R1", "td1=R3"}), lf("R3", "ok", "both", "U:spiffe://td1/ns/a/sa/b"), "-")
 	emit("authn", "tlscert", "grpc", wire.EncList([]string{"td1=@x:R1", "td2=@x:R2"}), lf("R2", "ok", "both", "U:spiffe://td1/ns/a/sa/b"), "-")
 	// the mesh config's trust domain changes after the authenticators were constructed
@@ -713,6 +802,8 @@ func probeAuthn() {
 	kube("grpc", "alias=remote1", "remote1", "unknown", "bearer", "tok-1", "istio-ca", good)
 	kube("grpc", "-", "nil", "remote1", "bearer", "tok-1", "istio-ca", good)
 	kube("grpc", "-", "nil", "-", "none", "tok-1", "istio-ca", good)
+	kube("grpc", "-", "nil", "-", "nomd", "tok-1", "istio-ca", good) // no incoming metadata at all
+	kube("http", "-", "nil", "-", "nomd", "tok-1", "istio-ca", good)
 	kube("grpc", "-", "nil", "-", "istio", "tok-1", "istio-ca", good)
 	for _, form := range []string{"bb", "two", "two2"} {
 		kube("grpc", "-", "nil", "-", form, "tok-1", "istio-ca", good)
